@@ -10,6 +10,13 @@ generated tree through generated path arguments and restores it into a pre-popul
                          pre-existing target content, under a random write order
 Direct oracle: restored tree == expected tree (bytes, mtime_ns, set of paths; untouched bystanders), computed by an
 independent walk of the arguments.
+
+Second case family (`run_content_case`, recipes from `impl/c01_content.py`): CONTENT CLASSES × WHAT ALREADY EXISTS AT THE TARGET —
+files made of long runs of one byte (zeros, 0xFF, …), sparse-looking and periodic files whose run / part lengths lie just below,
+at and above every integer constant of replicat/repository.py (and the platform's block sizes), chunked so that parts of exactly
+those lengths reach `_write_file_part`, restored over targets that already hold DIFFERENT bytes in those ranges (all-ones,
+inverted, … equally long / longer / shorter), at every concurrency.  Same tie (`layout.records`, `restore.apply`) and the same
+oracle; the proof side is `C01.write_part_unconditional` over the extracted operation list of `_write_file_part`.
 """
 import contextlib
 import dataclasses
@@ -21,6 +28,7 @@ from pathlib import Path
 
 from ..common import rng_for, digest
 from ..impl import runner as R
+from ..impl import c01_content as CC
 
 PARAMS = [(8, 32), (16, 64), (5, 12), (32, 128), (13, 50), (4, 4), (1, 10), (64, 256)]
 # incl. names that are not in Unicode normal form C (decomposed accents, singleton-decomposable characters) and a pair differing only by normalisation
@@ -306,6 +314,155 @@ def run_case(arg):
     return res
 
 
+TIE_CAP = 400_000       # bytes of chunk content per `restore.apply` request of a content case (hex doubles it)
+
+
+def run_content_case(arg):
+    seed, slot, tier = arg
+    from .. import common
+    common.use_rebuilt_chunker()
+    consts, _ = CC.thresholds(common.REPO, tier)
+    r = rng_for(seed, 'C01-content', slot)
+    case = CC.gen_case(r, slot, consts)
+    return execute_content(case, seed, slot, tier)
+
+
+def execute_content(case, seed, slot, tier):
+    """Runs one recipe of `c01_content.gen_case` on the real Repository: snapshot of the generated files, restore over the
+    generated pre-existing targets, direct oracle + the model requests."""
+    r = rng_for(seed, 'C01-content-orders', slot)
+    R.PERSISTENT_LOOP = None
+    res = {'idx': slot, 'violations': [], 'model': [], 'family': 'content'}
+    c = case['constant']
+    with R.Scratch(f'c01c_{slot}') as sc:
+        src, tgt = sc.dir('src'), sc.dir('tgt')
+        tree = {}
+        for k, f in enumerate(case['files']):
+            tree[f['name']] = (CC.make_file([tuple(x) for x in f['segs']]), 10 ** 18 + 1000 * slot + k)
+        R.write_tree(src, tree)
+        backend = R.AsyncMemBackend() if case['async_backend'] else R.MemBackend()
+        settings = R.settings_for(case['encrypted'], None, None, case['chunking'])
+        repo, key = R.init_repo(backend, settings, concurrent=case['concurrent'])
+        rec = RecChunker(repo.props.chunker)
+        repo.props = dataclasses.replace(repo.props, chunker=rec)
+        snap = R.snapshot(repo, [src], note='c')
+        sfiles = {f['path']: f for f in snap.data['files']}
+        exp = {str(src / name): v for name, v in tree.items()}
+        if set(sfiles) != set(exp) or len(sfiles) != len(snap.data['files']):
+            res['violations'].append(('snapshot:recorded-paths', f'recorded paths differ from the files of the tree: missing {sorted(set(exp) - set(sfiles))[:3]}, '
+                                      f'extra {sorted(set(sfiles) - set(exp))[:3]}', {}))
+        # records correspondence on the streamed order (size, path)
+        flat = sorted(exp, key=lambda p: (len(exp[p][0]), p))
+        lens = [len(ch) for ch in rec.chunks]
+        order = list(range(len(lens)))
+        r.shuffle(order)
+        impl_obs = {}
+        for k, p in enumerate(flat):
+            f = sfiles.get(p)
+            impl_obs[k] = None if f is None else sorted([[x['counter'], x['range'][0], x['range'][1]] for x in f['chunks']])
+        res['model'].append(({'op': 'layout.records', 'align': rec.alignment or 0, 'files': [{'size': len(exp[p][0]), 'path': cps(p)} for p in flat],
+                              'lens': lens, 'order': order}, {'per_file': impl_obs, 'stream_length': sum(lens)}, 'records'))
+        # ---- the pre-existing target
+        pre = {}
+        for f in case['files']:
+            p = str(src / f['name'])
+            old = CC.make_pre(None if f['pre'] is None else tuple(f['pre']), tree[f['name']][0])
+            if old is not None:
+                pre[p[1:]] = (old, None)
+        bystanders = {'unrelated/keep.me': (b'keep', 10 ** 18 + 1)}
+        R.write_tree(tgt, pre)
+        R.write_tree(tgt, bystanders)
+        repo2 = R.unlock(backend, key=key, concurrent=case['concurrent'])
+        part_lens = sorted({x['range'][1] - x['range'][0] for f in sfiles.values() for x in f['chunks']})
+        res['summary'] = {'family': 'content', 'constant': c, 'layout': case['layout'], 'params': [case['chunking']['min_length'], case['chunking']['max_length']],
+                          'concurrent': case['concurrent'], 'async': case['async_backend'], 'encrypted': case['encrypted'],
+                          'files': [[f['shape'], f['style'], f['run'], f['pre_label'], len(tree[f['name']][0])] for f in case['files']],
+                          'chunks': len(lens), 'part_lengths': part_lens[:8]}
+        try:
+            out = R.restore(repo2, tgt)
+        except Exception as e:  # noqa: BLE001
+            res['violations'].append(('restore:raises', f'restore of the snapshot just taken raises {type(e).__name__}: {str(e)[:120]}', {'recipe': case}))
+            res['nontrivial'] = False
+            res['dist'] = ['content:restore-raised']
+            return res
+        got = R.read_tree(tgt)
+        want = {os.fsencode(k): v for k, v in bystanders.items()}
+        for p, v in exp.items():
+            want[os.fsencode(p[1:])] = v
+        if set(got) != set(want):
+            res['violations'].append(('restore:path-set', f'restored path set differs: missing {sorted(set(want) - set(got))[:3]} extra {sorted(set(got) - set(want))[:3]}',
+                                      {'recipe': case}))
+        by_name = {os.fsencode(str(src / f['name'])[1:]): f for f in case['files']}
+        for k in sorted(set(got) & set(want)):
+            if got[k][0] != want[k][0]:
+                f = by_name.get(k)
+                old = pre.get(os.fsdecode(k))
+                cls = 'absent' if old is None else ('longer' if len(old[0]) > len(want[k][0]) else 'shorter-or-equal')
+                diff = CC.describe_difference(got[k][0], want[k][0], None if old is None else old[0])
+                what = (f'{k!r}: restored content differs from the source at offset {diff["first_offset"]} for {diff["differing_run"]} byte(s) '
+                        f'(expected {diff["expected_at"]}…, restored {diff["restored_at"]}…'
+                        f'{", which are the bytes the target held before" if diff["wrong_bytes_are_the_old_content"] else ""}); '
+                        f'{diff["restored_length"]} bytes restored, {diff["expected_length"]} expected; ')
+                if f is not None:
+                    what += (f'file = {f["shape"]} with a {f["style"]} run of length class {f["run"]!r} of the constant {c} ({", ".join(case["where"][:2])}); '
+                             f'target before = {f["pre_label"]}; chunking {case["chunking"]["min_length"]}/{case["chunking"]["max_length"]} ({case["layout"]}), '
+                             f'concurrency {case["concurrent"]}, {"async" if case["async_backend"] else "sync"} backend')
+                res['violations'].append((f'restore:content:pre-existing-{cls}', what, {'path': os.fsdecode(k), 'difference': diff, 'recipe': case}))
+            elif got[k][1] != want[k][1]:
+                res['violations'].append(('restore:mtime', f'{k!r}: mtime_ns {got[k][1]} != recorded {want[k][1]}', {'path': os.fsdecode(k), 'recipe': case}))
+        if sorted(out.files) != sorted(sfiles):
+            res['violations'].append(('restore:return-value', 'restore reports a different file list than the snapshot holds', {'recipe': case}))
+        # ---- restore.apply correspondence (only the chunks the file references, counters renumbered in order)
+        tied = 0
+        for p in sorted(sfiles):
+            f = sfiles[p]
+            counters = sorted({x['counter'] for x in f['chunks']})
+            if sum(len(rec.chunks[cn - 1]) for cn in counters if 0 < cn <= len(rec.chunks)) > TIE_CAP or any(not 0 < cn <= len(rec.chunks) for cn in counters):
+                continue
+            renum = {cn: i + 1 for i, cn in enumerate(counters)}
+            refs = [[renum[x['counter']], x['range'][0], x['range'][1]] for x in f['chunks']]
+            worder = list(range(len(refs)))
+            r.shuffle(worder)
+            old = pre.get(p[1:])
+            actual = got.get(os.fsencode(p[1:]))
+            res['model'].append(({'op': 'restore.apply', 'chunks': [rec.chunks[cn - 1].hex() for cn in counters], 'refs': refs,
+                                  'old': None if old is None else old[0].hex(), 'order': worder},
+                                 {'result': None if actual is None else actual[0].hex()}, 'restore'))
+            tied += 1
+        # ---- distribution
+        at_or_above = any(pl >= c for pl in part_lens)
+        res['nontrivial'] = bool(pre) and bool(lens)
+        dist = ['content:cases', 'content:core:' + case['files'][0]['style'] + ':conc=%d' % case['concurrent'], f'content:constant={c}', 'content:conc:%d' % case['concurrent'], 'content:' + ('async' if case['async_backend'] else 'sync'),
+                'content:layout:' + case['layout'], 'content:part>=constant' if at_or_above else 'content:parts<constant',
+                'content:tied-files:%s' % ('all' if tied == len(sfiles) else 'some' if tied else 'none')]
+        for f in case['files']:
+            dist += ['content:run:' + f['style'], 'content:run-length:' + f['run'], 'content:shape:' + f['shape'], 'content:pre:' + f['pre_label']]
+        # the case class itself: parts that are one repeated byte, by length relative to the constant, inside / outside old bytes that differ
+        dist += _overlap_counters(case, tree, pre, sfiles, src, c)
+        res['dist'] = dist
+    return res
+
+
+def _overlap_counters(case, tree, pre, sfiles, src, c):
+    """counts the parts (as handed to `_write_file_part`) that are one repeated byte, by length relative to the constant and by
+    whether the old target content differs somewhere inside the part's range"""
+    out = []
+    for f in case['files']:
+        p = str(src / f['name'])
+        data = tree[f['name']][0]
+        old = pre.get(p[1:])
+        pos = 0
+        for x in sorted(sfiles.get(p, {}).get('chunks', []), key=lambda y: y['counter']):
+            n = x['range'][1] - x['range'][0]
+            part = data[pos:pos + n]
+            if n and part == part[:1] * n:
+                rel = 'below' if n < c else 'at' if n == c else 'above'
+                inside = old is not None and old[0][pos:pos + n] not in (b'', part[:len(old[0][pos:pos + n])])
+                out.append(f'content:uniform-part:{"zero" if part[0] == 0 else "nonzero"}:{rel}-constant:{"over-different-old-bytes" if inside else "fresh-or-equal"}')
+            pos += n
+    return out
+
+
 def compare_model(kind, req, impl, m):
     """→ list of disagreement strings"""
     bad = []
@@ -344,24 +501,40 @@ def run(out, drv, info):
     out.assumptions = ['files do not change while the snapshot runs', 'CPython, pathlib/os (utime resolution = file system), json, cryptography, hashlib',
                        'the chunker is an arbitrary lossless cutter in the theorems (C10 proves the real one lossless); hash/cipher do not occur in the C01 model']
     args = [(out.seed, i, out.tier) for i in range(n)]
+    # content classes × pre-existing targets: every (constant, concurrency, backend flavour) slot, `rounds` times
+    from .. import common
+    consts, skipped = CC.thresholds(common.REPO, out.tier)
+    rounds = 2 if quick else 12
+    per_round = 3 * len(CC.CONCURRENCY) * len(consts)
+    cargs = [(out.seed, i, out.tier) for i in range(rounds * per_round)
+             if consts[i % len(consts)]['value'] <= CC.BIG or i // per_round < 2]         # constants of MiB size: two rounds (memory / time)
+    out.extra['content_constants'] = {'explored': [[x['value'], x['where'][:2]] for x in consts], 'skipped': skipped, 'cases': len(cargs)}
+    out.rule += ('; content family: case = (integer constant c of replicat/repository.py or platform block size) × concurrency × backend flavour (enumerated) × 1–4 files '
+                 'made of runs (zeros / 0xFF / one byte / periodic / sparse) of length just below / at / just above / 2× / 3–5× c between random data × chunk layout '
+                 '(whole tree one chunk, min=c, max=c, min=c±1) × target before restore (absent / identical / all-ones / all-zeros / inverted / random; equal, longer, shorter); '
+                 'non-trivial = some file restored over a pre-existing one')
     with mp.get_context('fork').Pool(min(16, os.cpu_count() or 4)) as pool:
         results = pool.map(run_case, args, chunksize=4)
+        results += pool.map(run_content_case, cargs, chunksize=2)
     reqs, meta = [], []
     for res in results:
         out.case(res['summary'], res.get('nontrivial', False))
         for d in res.get('dist', []):
             out.count(d)
         for sig, what, rp in res['violations']:
-            out.violation(sig, what, dict(rp, kind='case', seed=out.seed, idx=res['idx'], tier=out.tier, summary=res['summary']))
+            out.violation(sig, what, dict(rp, kind='content' if res.get('family') == 'content' else 'case', seed=out.seed, idx=res['idx'], tier=out.tier,
+                                          summary=res['summary']))
         for req, impl, kind in res['model']:
             reqs.append(req)
-            meta.append((res['idx'], impl, kind))
+            meta.append((('content:%d' % res['idx']) if res.get('family') == 'content' else res['idx'], impl, kind))
     if drv is not None:
         replies = drv.ask_many(reqs)
         for req, (idx, impl, kind), m in zip(reqs, meta, replies):
             bad = compare_model(kind, req, impl, m)
             if bad:
-                out.disagreement(f'{kind}: ' + '; '.join(bad[:3]), {'kind': 'case', 'seed': out.seed, 'idx': idx, 'tier': out.tier, 'request_digest': digest(req)})
+                content = isinstance(idx, str)
+                out.disagreement(f'{kind}: ' + '; '.join(bad[:3]), {'kind': 'content' if content else 'case', 'seed': out.seed, 'idx': int(idx.split(':')[1]) if content else idx,
+                                                                      'tier': out.tier, 'request_digest': digest(req)})
             else:
                 out.traces_validated += 1
     # one multi-piece case (file larger than the 16 MiB read piece) in the thorough tier
@@ -401,6 +574,23 @@ def replay(path, drv):
     if rp.get('kind') == 'case':
         res = run_case((rp['seed'], rp['idx'], rp.get('tier', 'quick')))
         print('summary', res['summary'])
+        for v in res['violations']:
+            print('violation', v[0], v[1])
+        bad = 0
+        if drv is not None:
+            for req, impl, kind in res['model']:
+                b = compare_model(kind, req, impl, drv.ask(req))
+                if b:
+                    bad += 1
+                    print('disagreement', kind, b[:2])
+        return 1 if (res['violations'] or bad) else 0
+    if rp.get('kind') == 'content':
+        # the stored recipe is re-run as it is (independent of the generator); without one the slot is regenerated
+        if rp.get('recipe'):
+            res = execute_content(rp['recipe'], rp.get('seed', 0), rp.get('idx', 0), rp.get('tier', 'quick'))
+        else:
+            res = run_content_case((rp['seed'], rp['idx'], rp.get('tier', 'quick')))
+        print('summary', res.get('summary'))
         for v in res['violations']:
             print('violation', v[0], v[1])
         bad = 0
